@@ -666,6 +666,8 @@ static void run_case(Rng&, Ctx& c)
       if (o.cpuLimitHit)
       {
         c.probe("cpu-5s-exhausted");
+        // (once a 60 s hang has been confirmed in this batch, a further 5 s exhaustion is taken as a hang without the long re-run)
+        if (nhang > 0) break;
         o = runChild([&](int wfd) { loadInChild(kind, "m.bin", wfd); }, 60., 900., "child.err");
         if (o.kind == ChildOutcome::TIMEOUT && !o.cpuLimitHit) watchdogSkip = true;
         else if (o.kind != ChildOutcome::TIMEOUT) c.probe("slow-5-to-60s");
@@ -701,11 +703,11 @@ static void run_case(Rng&, Ctx& c)
     {
       c.probe("timed-out");
       L.fail("loader-survives", base + "hang", "60 s of CPU time exhausted (after a first run that exhausted 5 s) | " + det);
-      // every hang costs 65 s of CPU: after three of them in one batch the reader is known to hang and the rest of the batch
+      // every hang costs 65 s of CPU: after two of them in one batch (the second is only given 5 s) the reader is known to hang and the rest of the batch
       // is abandoned (counted), so that a tree whose reader hangs on most inputs is still decided in bounded time
-      if (++nhang >= 3)
+      if (++nhang >= 2)
       {
-        for (size_t m2 = m + (size_t)nb; m2 < muts.size(); m2 += (size_t)nb) c.skip("batch-abandoned-after-3-hangs");
+        for (size_t m2 = m + (size_t)nb; m2 < muts.size(); m2 += (size_t)nb) c.skip("batch-abandoned-after-2-hangs");
         break;
       }
       continue;
